@@ -52,7 +52,11 @@ def main(argv=None):
             else:
                 ob.evaluations += 1
                 ob.saw('btc_hd_wallet/')
+        from . import evalr as _ev
+        _ev.Evaluator.TRACE.clear()
         mod.run(ctx)
+        from .props.purity import check_purity
+        check_purity(ctx, pid, sorted(_ev.Evaluator.TRACE))
         if a.tier == 'thorough' and hasattr(mod, 'thorough'):
             mod.thorough(ctx)
         if a.tier == 'thorough' and not os.environ.get('VERIF_NO_MUTANTS'):
